@@ -247,6 +247,6 @@ Result execute(MVal& plan, Stats& st) {
 } // namespace threadsim
 
 int main(int argc, char** argv) {
-    sim::Engine e{"threadsim", threadsim::generate, threadsim::execute};
+    sim::Engine e{"threadsim", threadsim::generate, threadsim::execute, true};
     return sim::worker_main(argc, argv, e);
 }
